@@ -145,6 +145,13 @@ for where in ("root", "nested"):
         if exc is not pipe.FAIL[1]: bad("failure", "%s, evaluated a second time: propagated %r instead of the same exception object" % (tag, exc))
         if "sync_paths" in k or s._paths: bad("failure", "%s, evaluated a second time (sub-results of the first attempt are in the store): paths committed by a failed evaluation: %s" % (tag, sorted(s._paths)))
         if api._eval_ctx is not None: bad("failure", "%s (second attempt): evaluation context still set" % tag); api._eval_ctx = None
+        # another, successful evaluation right after the failure commits its own paths only (nothing of the failed one)
+        res, exc, ev, calls = run(fn=pipe.other_ok)
+        synced = [e[1] for e in ev if e[0] == "sync_paths"]
+        if exc is not None or res != "other!": bad("failure", "%s, then another pipeline: %r / %r" % (tag, res, exc))
+        elif len(synced) != 1 or set(synced[0]) != {"/out/other"} or set(s._paths) != {"/out/other"}:
+            bad("failure", "%s, then another (successful) pipeline: it committed %s, its only kept path is /out/other -- paths of the failed evaluation were committed" % (tag, sorted(set().union(*[set(x) for x in synced]) if synced else [])))
+        s._paths.clear()
         pipe.FAIL = None
         # sub-results that completed before the failure are reused
         check_full("evaluation following '%s'" % tag, *run(), s, expect_calls=["root"] if where == "root" else ["root", "nested"])
@@ -236,6 +243,14 @@ def inner_eval():
 def nested_eval():
     CALLS.append("nested_eval")
     return inner_eval()
+
+def other_leaf():
+    CALLS.append("other_leaf")
+    return "other"
+
+def other_ok():
+    CALLS.append("other_ok")
+    return dds.keep("/out/other", other_leaf) + "!"
 
 def lazy_overlap():
     CALLS.append("lazy_overlap")
